@@ -82,7 +82,7 @@ class ReadDeviceInformationRequest(ModbusRequest):
         '''
         if not (0x00 <= self.object_id <= 0xff):
             return self.doException(merror.IllegalValue)
-        if not (0x00 <= self.read_code <= 0x04):
+        if not (0x01 <= self.read_code <= 0x04):
             return self.doException(merror.IllegalValue)
 
         information = DeviceInformationFactory.get(_MCB,
